@@ -469,6 +469,9 @@ func oracleClient(res *vh.Result, caseNo int, stream, prefix string, p *gPackage
 			res.Fail(vh.Failure{Case: caseNo, Stream: stream, Sig: prefix + " -> declared entity missing from client API", Clause: "entities", Input: input, Got: r.Entities})
 		}
 	}
+	if len(r.DanglingRefs) > 0 {
+		res.Fail(vh.Failure{Case: caseNo, Stream: stream, Sig: prefix + " -> OpenAPI document has a $ref that names no schema of the document", Clause: "every schema reachable from a method or entity is present", Input: input, Got: r.DanglingRefs})
+	}
 	// the schemas of sub-packages (request / response objects and what is declared in place inside them) are filed in
 	// the declared package too: the client API has no package for a sub-package of the declared one (other packages are
 	// the imported ones whose schemas are referenced: j5.list.v1, j5.messaging.v1, ...)
